@@ -35,7 +35,8 @@ class P(Prop):
             "base, ONE invalidating change of a family at a random place: switchboard without source/storage, non-positive "
             "switchboard id, breakers removed, breaker to an unknown switchboard, duplicate name in a category (switchboard and shaft "
             "line), component of the wrong class for its role, non-positive rated power (efficiency components and engines), "
-            "non-monotonic efficiency map, fuel specification with missing/superfluous data, one series of another length (not 1), "
+            "non-monotonic efficiency map (loads, generators alone or in a genset, converters of fuel-cell / battery / supercapacitor systems, "
+            "single-stage drives; in mechanical plants the gearbox of a geared main engine or a mechanical load), fuel specification with missing/superfluous data, one series of another length (not 1), "
             "hybrid system with a copied / renamed / missing PTI/PTO; the implementation's accept/reject is compared with the model's "
             "verdict evaluated in Coq. Non-trivial = every invalid case")
     QUICK_N = 240
@@ -46,7 +47,27 @@ class P(Prop):
     def gen(self, rng, tier, override=None):
         out = []
         for _ in range(self.n_cases(tier, override)):
-            fam = rng.choice(FAMILIES)
+            fam = rng.choice(FAMILIES + ["mech", "mech"])
+            if fam == "mech":
+                # mechanical plants: valid ones, and ones with ONE efficiency curve made non-monotonic - the gearbox of a geared
+                # main engine or a mechanical load
+                m = sysrun.gen_mechanical_case(rng)
+                m["plant"]["mech"] = [d for d in m["plant"]["mech"] if d["cls"] != "ptipto"]
+                m["inp"]["comps"] = [ci for ci in m["inp"]["comps"] if "shaft" not in ci]
+                for ci in m["inp"]["comps"]:
+                    if "status" in ci:
+                        ci["status"] = [True] * m["inp"]["n"]
+                case = {"family": "mech", "plant": m["plant"], "inp": m["inp"], "what": "valid"}
+                if rng.random() < 0.6:
+                    bad = rng.choice([[[Fraction(1, 8), Fraction(1, 16)], [Fraction(1, 4), Fraction(1)]],
+                                      [[Fraction(1, 2), Fraction(1, 4)], [Fraction(5, 8), Fraction(1)]]])
+                    idx = [i for i, d in enumerate(m["plant"]["mech"]) if d["cls"] in ("main_engine_gb", "propeller", "mech_load")]
+                    d = m["plant"]["mech"][rng.choice(idx)]
+                    d["gb_eff" if d["cls"] == "main_engine_gb" else "eff"] = bad
+                    case["what"] = "non-monotonic:" + ("gearbox" if d["cls"] == "main_engine_gb" else "load")
+                    case["bad"] = [d["rated"], bad]
+                out.append(case)
+                continue
             c = sysrun.gen_electric_case(rng, rich=False)
             plant, inp = c["plant"], c["inp"]
             n = inp["n"]
@@ -126,7 +147,10 @@ class P(Prop):
                 else:
                     case["family"] = "valid"
             elif fam == "nonmono":
-                idx = [i for i, d in enumerate(comps) if d["cls"] == "load"]
+                # any component whose own efficiency curve the description carries: loads, generators (alone or in a genset),
+                # the converter of a fuel-cell / battery / supercapacitor system, a single-stage drive
+                idx = [i for i, d in enumerate(comps) if d["cls"] in ("load", "generator", "genset", "fuelcell", "battery_sys", "supercap_sys")
+                       or (d["cls"] == "drive" and not d.get("stages"))]
                 if idx:
                     # an efficiency rising faster than the load makes the input FALL while the output rises
                     comps[rng.choice(idx)]["eff"] = rng.choice([[[Fraction(1, 8), Fraction(1, 16)], [Fraction(1, 4), Fraction(1)]],
@@ -179,6 +203,9 @@ class P(Prop):
                     return self.run_hybrid(case)
                 if fam == "dup_shaft":
                     return self.run_shaft(case)
+                if fam == "mech":
+                    sysm, objs, res = sysrun.run_mechanical(case["plant"], case["inp"])
+                    return {"accepted": True, "finite": finite_snapshot(sysrun.snap(res))}
                 sysm, objs, res = sysrun.run_electric(case["plant"], case["inp"])
                 s = sysrun.snap(res)
                 return {"accepted": True, "finite": finite_snapshot(s)}
@@ -255,6 +282,10 @@ class P(Prop):
             trip = core.coq_list([f"({d['line']}%Z, {ptype(d)}%nat, {names.setdefault(d['name'], len(names))}%nat)" for d in case["_shaft"]])
             # every line is its own ShaftLine object: the check is per line (the line id is part of the key)
             return f"agree (construct_mechanical {trip}) {acc}"
+        if fam == "mech":
+            if "bad" not in case:
+                return f"agree (all_accepted []) {acc}"
+            return f"agree (all_accepted [component_verdict {core.coq_q(case['bad'][0])} {coq_curve(case['bad'][1])}]) {acc}"
         plant, inp = case["plant"], case["inp"]
         names = {}
         comps = []
@@ -263,7 +294,8 @@ class P(Prop):
             k = pg.kind_of(d["cls"])
             ok = not d["cls"].startswith("bad_")
             comps.append(f"mkc {names.setdefault(d['name'], len(names))}%nat {PT[k]}%nat {core.coq_bool(ok)} ({int(d['swb'])})%Z")
-            if d["cls"] in ("load", "generator", "battery", "supercap") or (d["cls"] == "drive" and not d.get("stages")):
+            if d["cls"] in ("load", "generator", "battery", "supercap", "genset", "genset_df", "genset_rect", "fuelcell", "coges",
+                            "battery_sys", "supercap_sys") or (d["cls"] == "drive" and not d.get("stages")):
                 verdicts.append(f"component_verdict {core.coq_q(d['rated'])} {coq_curve(d.get('eff', [Fraction(95, 100)]))}")
             elif d["cls"] == "drive" and len(d.get("stages") or []) == 1:
                 # one stage with its own (valid) rating: the verdict on the serial system is that on its own rating
@@ -293,6 +325,10 @@ class P(Prop):
                 return "a valid configuration was accepted but its result is not finite"
             return None
         invalid = True
+        if fam == "mech":
+            invalid = case["what"] != "valid"
+            if not invalid and obs["accepted"] and not obs.get("finite", True):
+                return None      # engines all running but no load etc.: finiteness of mechanical results is C04's premise
         if fam == "dup_name":
             invalid = pg.kind_of(case["plant"]["comps"][-1]["cls"]) == next(
                 pg.kind_of(d["cls"]) for d in case["plant"]["comps"][:-1] if d["name"] == case["plant"]["comps"][-1]["name"])
